@@ -135,11 +135,13 @@ def provide_binding_energies(net):
     for sp in net["species"]:
         if sp["surface"]:
             core = sp["name"][1:]
+            cores = [core]
             if sp["name"].isupper() and sp["alias"][1:-1].upper() == core and sp["alias"][1:-1] != core:
-                core = sp["alias"][1:-1]          # upper-case spelling: the table is keyed by the name after element replacement
-            v = 800.0 + 37.0 * (sum(ord(c) for c in core) % 50)
-            eb["#" + core] = v
-            eb["G" + core] = v
+                cores.append(sp["alias"][1:-1])   # upper-case spelling: with a replacement table the energy is looked up under the renamed species
+            v = 800.0 + 37.0 * (sum(ord(c) for c in core.upper()) % 50)
+            for c_ in cores:
+                eb["#" + c_] = v
+                eb["G" + c_] = v
     if eb:
         chemistrydata.update_binding_energy(eb)
 
